@@ -14,6 +14,18 @@ InGot(g, ev) == \E k \in 1..Len(g) : g[k] = ev
 CtxEnded(t, s) == \E k \in 1..Len(t.sched) : t.sched[k].a = "SendCtxDone" /\ t.sched[k].p = s
 Listened(t, l) == \E k \in 1..Len(t.sched) : t.sched[k].a = "Listen" /\ t.sched[k].p = l
 
+\* real-time reading of "live for the whole send": the listener's Listen had returned before the harness let the
+\* send start, and it was not cancelled before that Send returned (positions in the harness's journal)
+Pos(t, ev, p, k) == LET ks == { j \in 1..Len(t.journal) : t.journal[j].ev = ev /\ t.journal[j].p = p /\ t.journal[j].k = k } IN
+                    IF ks = {} THEN 0 ELSE CHOOSE j \in ks : \A i \in ks : j <= i
+OwedRealTime(t, l) ==
+  { <<t.journal[j].p, t.journal[j].k>> : j \in { j \in 1..Len(t.journal) :
+        /\ t.journal[j].ev = "sent" /\ t.journal[j].ok
+        /\ LET start == Pos(t, "send", t.journal[j].p, t.journal[j].k)
+               lis == Pos(t, "listened", l, 0)
+               can == Pos(t, "cancel", l, 0)
+           IN start > 0 /\ lis > 0 /\ lis < start /\ (can = 0 \/ can > j) } }
+
 BusFails(t) ==
   If(t.panics = <<>>, "C10:panic")
   \cup If(t.problem = "", "C10:sender-stalled-after-everything-was-cancelled")
@@ -23,6 +35,7 @@ BusFails(t) ==
              \cup If(\A j, k \in 1..Len(g) : j < k /\ g[j][1] = g[k][1] => g[j][2] < g[k][2], "C10:per-sender-order-broken")
              \cup If(~Listened(t, l) \/ t.closedSeen[l], "C10:channel-not-closed-after-cancel")
              \cup If(t.afterClose[l] = 0, "C10:delivery-after-close")
+             \cup If(\A ev \in OwedRealTime(t, l) : InGot(g, ev), "C10:live-listener-missed-event")
              \* a listener registered and live for the whole of a send received its event (only decidable when
              \* the run followed the specification's behaviour to the end)
              \cup (IF t.drift # "" THEN {} ELSE
